@@ -392,6 +392,20 @@ class Exprs:
                 return S.any_str(env, 0, None, S.join_cls(env, b))
             if isinstance(a, Opaque) and isinstance(b, Int) or isinstance(b, Opaque) and isinstance(a, Int):
                 return a if isinstance(a, Opaque) else b
+            # sequence repetition: (7, 3, 1) * 4
+            seq, cnt = (a, b) if isinstance(b, Int) else (b, a)
+            if isinstance(cnt, Int) and isinstance(seq, (Tup, PyConst, ListOf)):
+                c = cnt.const()
+                if isinstance(seq, PyConst) and isinstance(seq.v, (tuple, list)):
+                    if c is not None and 0 <= c * len(seq.v) <= 4096:
+                        return PyConst(seq.v * c) if isinstance(seq.v, tuple) else self.from_py(seq.v * c, env)
+                    seq = self.from_py(seq.v, env)
+                if isinstance(seq, Tup):
+                    if c is not None and 0 <= c * len(seq.elems) <= 256:
+                        return Tup(list(seq.elems) * c, seq.mutable)
+                    return ListOf(self._elem_join(seq, env), 0, None)
+                if isinstance(seq, ListOf):
+                    return ListOf(seq.elem, 0 if (c is None or c == 0) else seq.lo * c, None if (c is None or seq.hi is None) else seq.hi * c)
             self.ctx.raise_('TypeError', node, env, '%r * %r' % (a, b))
             return TOP
         if isinstance(op, ast.Mod):
